@@ -5,5 +5,5 @@ PROP = dict(
     level_note="Trusted: harness memstore engine (models pkg/storage/file.go and an idealised object store), the repo's key comparator (checked separately by C06) as ordering oracle, sam `where` evaluation of predicates for the model's delete-where. Not covered: manage-style compaction via the internal lakemanage package, multi-branch histories (C15).",
     technique="stateful property-based testing (rapid) against a reference model",
     assumptions=["storage is the harness's in-memory engine; the real file engine is not involved", "delete-where predicates are evaluated for the model by the repo's own `where` operator on in-memory values"],
-    tests=[dict(name="TestPoolModel", quick=(8, 100), thorough=(16, 1200))],
+    tests=[dict(name="TestPoolModel", quick=(8, 100), thorough=(16, 500))],
 )
